@@ -27,5 +27,5 @@ func init() {
 	}
 	mk("C03", "The merged schema is exactly the union of the service schemas", 3, []string{"merged schema checked"}, nil, nil)
 	mk("C04", "The routing table names a real owner for every routable field", 4, []string{"routing table checked"}, nil, nil)
-	mk("C05", "Conflicting service schemas are rejected, independent of service order", 5, []string{"conflict rejected", "accepted in every order"}, []string{"C05-three-services-partial-overlap"}, []string{"C05-shared-field-different-signature", "C05-plain-types-sharing-only-id", "C05-three-services-partial-overlap"}, "C05-shared-field-different-signature", "C05-three-services-partial-overlap", "C05-plain-types-sharing-only-id")
+	mk("C05", "Conflicting service schemas are rejected, independent of service order", 5, []string{"conflict rejected", "accepted in every order"}, []string{"C05-three-services-partial-overlap"}, []string{"C05-plain-types-sharing-only-id", "C05-three-services-partial-overlap"}, "C05-three-services-partial-overlap", "C05-plain-types-sharing-only-id")
 }
